@@ -598,12 +598,12 @@ fn build_debug_expr(
             Fields::Unnamed(_) | Fields::Unit => false,
         };
         let mut expr = TokenStream::new();
-        let debug_x = match is_named {
-            true => quote!(debug_struct),
-            false => quote!(debug_tuple),
+        let (debug_x, builder) = match is_named {
+            true => (quote!(debug_struct), quote!(::core::fmt::DebugStruct)),
+            false => (quote!(debug_tuple), quote!(::core::fmt::DebugTuple)),
         };
         let name = ident.unraw().to_string();
-        expr.extend(quote!(__f.#debug_x(#name)));
+        expr.extend(quote!(let mut __d = ::core::fmt::Formatter::#debug_x(__f, #name);));
         for field in fields {
             if !field.hattrs.is_debug_ignore() {
                 let mut e = to_expr(field);
@@ -625,15 +625,15 @@ fn build_debug_expr(
                 expr.extend(match &field.field.ident {
                     Some(ident) if is_named => {
                         let name = ident.unraw().to_string();
-                        quote! (.field(#name, #e))
+                        quote! (#builder::field(&mut __d, #name, #e);)
                     }
-                    _ => quote! (.field(#e)),
+                    _ => quote! (#builder::field(&mut __d, #e);),
                 });
                 field.push_bounds_to(use_bounds, kind, wcb);
             }
         }
-        expr.extend(quote!(.finish()));
-        expr
+        expr.extend(quote!(#builder::finish(&mut __d)));
+        quote!({ #expr })
     };
     Ok(expr)
 }
